@@ -159,7 +159,7 @@ def showVal : Val → String
 
 def showOut : Out → String
   | .obs ts typ v val => s!"obs {showRat ts} {typ.code} {hex v.actor} {hex v.sig} {showVal val}"
-  | .rep ts a r => s!"rep {showRat ts} {hex a} {r.code}"
+  | .rep ts a r _ => s!"rep {showRat ts} {hex a} {r.code}"
   | .repErr ts a => s!"rep {showRat ts} {hex a} 1"
   | .start a => s!"start {hex a}"
   | .stop a => s!"stop {hex a}"
